@@ -80,6 +80,74 @@ def _check(job):
     return n, divs
 
 
+def _empty_slice_chunk(names):
+    """Aggregators!EmptyIsUndefined on the real metrics: a file in which EVERY field is missing at the second lead time; whichever statistic is set as
+    the metric's aggregator (sum, min, max, range, median, a quantile, std), the score of that lead time is missing -- not 0, not an exception"""
+    import io
+    import sys
+    import numpy as np
+    import verif.metric, verif.aggregator, verif.axis, verif.input, verif.data, verif.util, verif.interval
+    wd = par.workdir()
+    p = os.path.join(wd, "empty_slice.txt")
+    n = 8
+    inp = {"times": [1325376000, 1325462400], "leads": [0, 12], "locs": [1, 2], "lat": [50, 51], "lon": [10, 10], "elev": [0, 0], "hasObs": True, "hasFcst": True,
+           "obs": [1, 3, "nan", "nan", 2, 0, "nan", "nan"], "fcst": [2, 1, "nan", "nan", 1, 2, "nan", "nan"],
+           "pit": [[1, 8], [3, 8], "nan", "nan", [1, 2], [1, 4], "nan", "nan"], "thresholds": [1, 2],
+           "cdf": [v for k in range(n) for v in (([1, 4], [3, 4]) if k % 4 < 2 else ("nan", "nan"))], "quantiles": [0.25, 0.75],
+           "x": [v for k in range(n) for v in ((k % 3, k % 3 + 2) if k % 4 < 2 else ("nan", "nan"))]}
+    mat.write_text(p, inp)
+    classes = dict(verif.metric.get_all())
+    count, divs = 0, []
+    for name in names:
+        for agg in ("sum", "min", "max", "range", "median", "0.9", "std"):
+            rep = {"kind": "empty-slice", "metric": name, "aggregator": agg, "file": open(p).read()}
+            old = sys.stdout
+            sys.stdout = io.StringIO()
+            try:
+                data = verif.data.Data([verif.input.get_input(p)])
+                m = classes[name]()
+                m.aggregator = verif.aggregator.get(agg)
+                iv = verif.util.get_intervals("within", np.array([1.0, 2.0]))[0]
+                if name.lower() in ("quantile", "quantilescore"):
+                    iv = verif.interval.Interval(0.25, np.inf, False, False)
+                if name.lower() in ("quantilecoverage", "spread", "spreadskillratio"):
+                    iv = verif.interval.Interval(0.25, 0.75, False, False)
+                with np.errstate(all="ignore"):
+                    v = m.compute(data, 0, verif.axis.Leadtime(), iv)
+                count += 1
+                got = float(np.ma.filled(v[1], np.nan))
+                if not math.isnan(got):
+                    divs.append(("score:%s:number-from-no-valid-case:agg-%s" % (name.lower(), agg),
+                                 "%s with the aggregator %s at a lead time where every value of the file is missing: expected missing, observed %r" % (name, agg, got), rep))
+            except NotImplementedError:
+                pass          # the abstract base classes
+            except SystemExit:
+                pass          # an error message is no number
+            except Exception as e:
+                divs.append((exc_site(e), "%s with the aggregator %s at a lead time where every value of the file is missing: %r" % (name, agg, e), rep))
+            finally:
+                sys.stdout = old
+    return count, divs
+
+
+def _empty_slice_all_aggregators(ctx):
+    import inspect
+    import verif.metric
+    names = []
+    for name, cls in verif.metric.get_all():
+        try:
+            inspect.signature(cls).bind()       # metrics that are built without arguments (all the named scores of the help text)
+            names.append(name)
+        except TypeError:
+            pass
+    for n, divs in par.pmap(_empty_slice_chunk, [names[i:i + 8] for i in range(0, len(names), 8)], chunk=1):
+        ctx.evaluations += n
+        for site, detail, rep in divs:
+            ctx.diverge(site, rep, detail=detail)
+    ctx.traces += len(names)
+    ctx.extra["empty_slice_metric_x_aggregator"] = len(names) * 7
+
+
 def run(ctx):
     ctx.rule = ("case = (dataset with missing single cells / a whole time or location slice / a whole field of an input, missing-value "
                 "encoding, metric, axis, slice, input); non-trivial = dataset has at least one missing cell")
@@ -106,6 +174,8 @@ def run(ctx):
         ctx.evaluations += n
         for site, detail, rep in divs:
             ctx.diverge(site, rep, detail=detail)
+    # a slice without any valid case under EVERY aggregator and EVERY metric (after seed C04-j)
+    _empty_slice_all_aggregators(ctx)
     # pre-aggregation (-T): a window holding a missing value is missing, whichever statistic accumulates it
     from harness.checks import dscommon
     dscommon.run_family(ctx, "C15T", fmt="text", variant={"missing_token": "NA"}, limit=(60 if ctx.tier == "quick" else None), always_nontrivial=True)
